@@ -147,6 +147,12 @@ type world struct {
 	holdTurn   int32
 	pid        uuid.UUID
 	hbBlock    int32 // heartbeats to this node are lost until a delayed append or a vote request got through
+	// conf = "snapapp": a lagging follower is handed the snapshot AND the appends behind it before its ready loop
+	// looks again (one Ready with a snapshot and committed entries)
+	choreo     int32 // 0 off | 1 detain the follower's next heartbeat response | 2 park its loop, let the next one through | 3 wait for the snapshot | 4 wait for the append | 5 done | 9 missed
+	choreoNode int32
+	parked     int32 // 1: the follower's ready loop waits at "advanced"
+	detained   func()
 }
 
 func (s *shim) Receive(ctx context.Context, req *pb.RaftMessage) (*pb.EmptyMessage, error) {
@@ -163,6 +169,33 @@ func (s *shim) Receive(ctx context.Context, req *pb.RaftMessage) (*pb.EmptyMessa
 	if m.Type == raftpb.MsgSnap && atomic.AddInt32(&w.snapDrops, 1) <= int32(w.sc.DropSnap) {
 		emit(event{"ev": "dropsnap", "node": n.idx})
 		return nil, fmt.Errorf("snapshot message lost")
+	}
+	if c := atomic.LoadInt32(&w.choreo); c >= 1 && c <= 4 {
+		f := uint64(atomic.LoadInt32(&w.choreoNode))
+		switch {
+		case c == 1 && m.From == f && m.Type == raftpb.MsgHeartbeatResp:
+			// delayed, not lost: it reaches the leader after the snapshot was sent
+			w.detained = func() { tr.Receive(context.Background(), req) }
+			atomic.StoreInt32(&w.choreo, 2)
+			return &pb.EmptyMessage{}, nil
+		case c == 2 && m.From == f && m.Type == raftpb.MsgHeartbeatResp:
+			atomic.StoreInt32(&w.parked, 1)
+			atomic.StoreInt32(&w.choreo, 3)
+		case c == 3 && m.To == f && m.Type == raftpb.MsgSnap:
+			r, err := tr.Receive(ctx, req)
+			atomic.StoreInt32(&w.choreo, 4)
+			go func() {
+				time.Sleep(15 * time.Millisecond) // the sender reports the snapshot as delivered first
+				w.detained()
+			}()
+			return r, err
+		case c == 4 && m.To == f && m.Type == raftpb.MsgApp && len(m.Entries) > 0:
+			r, err := tr.Receive(ctx, req)
+			time.Sleep(2 * time.Millisecond)
+			atomic.StoreInt32(&w.choreo, 5)
+			atomic.StoreInt32(&w.parked, 0)
+			return r, err
+		}
 	}
 	if p := int(atomic.LoadInt32(&w.part)); p != 0 && (int(m.From) == p || int(m.To) == p) {
 		if int(m.To) == p && int(atomic.LoadInt32(&w.holdApp)) == p && m.Type == raftpb.MsgApp {
@@ -368,6 +401,11 @@ func (w *world) installHooks() {
 			prevSnap[n.idx] = int(sn.Metadata.Index)
 			prevSnapMu.Unlock()
 			emit(event{"ev": "snapshot", "node": n.idx, "err": es, "snapidx": int(sn.Metadata.Index), "prev": prev, "snapnodes": nodeList(sn.Metadata.ConfState.Nodes)})
+		}
+		if point == "advanced" && int32(n.id) == atomic.LoadInt32(&w.choreoNode) {
+			for i := 0; i < 3000 && atomic.LoadInt32(&w.parked) == 1; i++ {
+				time.Sleep(time.Millisecond)
+			}
 		}
 		// crash plan
 		due := int(atomic.LoadInt32(&n.cycles)) >= w.sc.CrashCycle
@@ -696,6 +734,50 @@ func main() {
 				}
 			}
 			client(1)
+		}
+	}
+	if sc.Conf == "snapapp" {
+		client(2)
+		snap := func(n *node) {
+			if g := w.raftOf(n); g != nil {
+				done := make(chan struct{})
+				go func() { g.VerifRequestSnapshot(0); close(done) }()
+				select {
+				case <-done:
+				case <-time.After(300 * time.Millisecond):
+				}
+			}
+		}
+		if l := w.waitLeader(3 * time.Second); l != nil {
+			var away *node
+			for _, n := range w.nodes {
+				if n != l && w.raftOf(n) != nil {
+					away = n
+				}
+			}
+			atomic.StoreInt32(&w.part, int32(away.idx))
+			emit(event{"ev": "isolated", "node": away.idx})
+			client(4)
+			for _, n := range w.nodes {
+				if n != away {
+					snap(n)
+				}
+			}
+			client(3)
+			atomic.StoreInt32(&w.choreoNode, int32(away.id))
+			atomic.StoreInt32(&w.choreo, 1)
+			atomic.StoreInt32(&w.part, 0)
+			for dl := time.Now().Add(3 * time.Second); time.Now().Before(dl) && atomic.LoadInt32(&w.choreo) != 5; {
+				time.Sleep(time.Millisecond)
+			}
+			if !atomic.CompareAndSwapInt32(&w.choreo, 5, 0) {
+				emit(event{"ev": "choreo", "reached": int(atomic.LoadInt32(&w.choreo))})
+				atomic.StoreInt32(&w.choreo, 9)
+			} else {
+				emit(event{"ev": "choreo", "reached": 5})
+			}
+			atomic.StoreInt32(&w.parked, 0)
+			client(2)
 		}
 	}
 	if sc.Conf == "lagging" {
